@@ -122,7 +122,7 @@ KINDS = [
 def contexts(src):
     """[(start, end, name)] for every impl / trait block."""
     out = []
-    for m in re.finditer(r"\b(impl|trait)\b([^{;]*)\{", src):
+    for m in re.finditer(r"(?m)^[ \t]*(?:unsafe[ \t]+)?(?:pub(?:\([^)]*\))?[ \t]+)?(impl|trait)\b([^{;]*)\{", src):
         kind, head = m.group(1), m.group(2)
         try:
             end = match_brace(src, m.end() - 1)
@@ -422,3 +422,289 @@ def gen_keystore(repo):
     emit("ks_try_insert", km, r"pub trait KeyStore\s*\{", "try_insert")
     emit("ks_remove", km, r"pub trait KeyStore\s*\{", "remove")
     return ("GenKeyStore.v", "".join(out), probs)
+
+
+# ---------------------------------------------------------------- GenCrypto.v (C34, C36-C38)
+
+CRYPTO_SRC = "crates/aranya-crypto/src/"
+FRAMING_FILES = ["policy.rs", "aranya.rs", "misc.rs", "default.rs", "groupkey.rs", "id.rs", "ciphersuite/ext.rs",
+                 "tls/psk.rs", "apq.rs", "afc/uni.rs", "hpke.rs"]
+
+
+def strip_comments_only(src):
+    """Remove comments, keep string literals intact."""
+    out = []
+    i, n = 0, len(src)
+    while i < n:
+        c = src[i]
+        if src.startswith("//", i):
+            j = src.find("\n", i)
+            i = n if j < 0 else j
+        elif src.startswith("/*", i):
+            j = src.find("*/", i)
+            i = n if j < 0 else j + 2
+        elif c == '"':
+            j = i + 1
+            while j < n and src[j] != '"':
+                j += 2 if src[j] == "\\" else 1
+            out.append(src[i:j + 1])
+            i = j + 1
+        else:
+            out.append(c)
+            i += 1
+    return "".join(out)
+
+
+def split_top(s):
+    """Split at top-level commas."""
+    parts, depth, cur = [], 0, []
+    instr = False
+    for i, c in enumerate(s):
+        if c == '"' and (i == 0 or s[i - 1] != "\\"):
+            instr = not instr
+        if not instr:
+            if c in "([{":
+                depth += 1
+            elif c in ")]}":
+                depth -= 1
+            elif c == "<" and i + 1 < len(s) and s[i + 1] not in " =":
+                pass
+        if c == "," and depth == 0 and not instr:
+            parts.append("".join(cur))
+            cur = []
+        else:
+            cur.append(c)
+    if "".join(cur).strip():
+        parts.append("".join(cur))
+    return [p.strip() for p in parts]
+
+
+def balanced(s, i, open_c, close_c):
+    """s[i] == open_c; index just past the matching close_c (string-aware)."""
+    depth, j, instr = 0, i, False
+    while j < len(s):
+        c = s[j]
+        if c == '"' and s[j - 1] != "\\":
+            instr = not instr
+        elif not instr:
+            if c == open_c:
+                depth += 1
+            elif c == close_c:
+                depth -= 1
+                if depth == 0:
+                    return j + 1
+        j += 1
+    raise ValueError("unbalanced")
+
+
+def norm_arg(a):
+    a = re.sub(r"\s+", "", a)
+    a = re.sub(r"^::core::borrow::Borrow::borrow\((.*)\)$", r"\1", a)
+    a = re.sub(r"^(?:::core::)?iter::once(?:::<[^>]*>)?\((.*)\)$", r"\1", a)
+    a = a.lstrip("&*")
+    for suf in (".as_bytes()", ".as_ref()", ".borrow()", ".as_slice()"):
+        while a.endswith(suf):
+            a = a[:-len(suf)]
+    a = a.replace("self.", "").replace("?", "")
+    return a
+
+
+def lit_or_const(tok, body, whole):
+    tok = tok.strip()
+    m = re.fullmatch(r'\*?b"((?:[^"\\]|\\.)*)"', tok)
+    if m:
+        return m.group(1)
+    m = re.fullmatch(r"\$?(\w+)(?:\.as_bytes\(\))?", tok)
+    if m:
+        for src in (body, whole):
+            m2 = re.search(r'const\s+%s\s*:\s*&(?:\'static\s+)?(?:\[u8\]|str)\s*=\s*b?"((?:[^"\\]|\\.)*)"' % re.escape(m.group(1)), src)
+            if m2:
+                return m2.group(1)
+        return "$" + m.group(1)
+    return "?" + re.sub(r"\s+", "", tok)
+
+
+def framing_sites(repo, rel):
+    raw = gen.read(repo, CRYPTO_SRC + rel)
+    src = drop_test_modules(strip_comments_only(raw))
+    ctxs = contexts(src)
+    items = [(n, b, e) for (n, b, e) in fn_items(src) if not n.startswith("const ")]
+    # macro_rules bodies: treat each `macro_rules! name { ... }` as a context so sites inside are attributed
+    macros = []
+    for m in re.finditer(r"\bmacro_rules!\s*(\w+)\s*\{", src):
+        try:
+            macros.append((m.start(), match_brace(src, m.end() - 1), "macro " + m.group(1)))
+        except ValueError:
+            pass
+
+    def where(pos):
+        best, name = None, ""
+        for (n, b, e) in items:
+            if b <= pos < e and (best is None or b > best):
+                best, name = b, n
+        ctx, cb = "", None
+        for (cs, ce, cn) in ctxs + macros:
+            if cs <= pos < ce and (cb is None or cs > cb):
+                cb, ctx = cs, cn
+        body = ""
+        if best is not None:
+            for (n, b, e) in items:
+                if b == best:
+                    body = src[b:e]
+        return ((ctx + "::" + name) if ctx else name), body
+
+    out = []
+    for m in re.finditer(r"\b(\w+)::tuple_hash\(", src):
+        if m.group(1) in ("hash",):
+            continue
+        end = balanced(src, m.end() - 1, "(", ")")
+        args = split_top(src[m.end():end - 1])
+        path, body = where(m.start())
+        if len(args) < 2:
+            continue
+        ctx = args[1].strip()
+        lst = split_top(ctx[1:-1]) if ctx.startswith("[") else [ctx]
+        out.append((path, "tuple_hash", lit_or_const(args[0], body, src), "", [norm_arg(a) for a in lst]))
+    for m in re.finditer(r"(\$?\w+|\$crate::id::IdExt)::new::<CS>\(", src):
+        end = balanced(src, m.end() - 1, "(", ")")
+        args = split_top(src[m.end():end - 1])
+        path, body = where(m.start())
+        if len(args) < 2:
+            continue
+        ctx = args[1].strip()
+        lst = split_top(ctx[1:-1]) if ctx.startswith("[") else [ctx]
+        out.append((path, "id_new", lit_or_const(args[0], body, src), "", [norm_arg(a) for a in lst]))
+    for m in re.finditer(r"\bCS::labeled_extract\(", src):
+        end = balanced(src, m.end() - 1, "(", ")")
+        args = split_top(src[m.end():end - 1])
+        path, body = where(m.start())
+        if len(args) < 4 or path.endswith("::labeled_extract"):
+            continue
+        ikm = args[3].strip()
+        lst = split_top(ikm[1:-1]) if ikm.startswith("[") else [ikm]
+        out.append((path, "labeled_extract", lit_or_const(args[0], body, src), lit_or_const(args[2], body, src),
+                    ["salt=" + norm_arg(args[1])] + [norm_arg(a) for a in lst]))
+    for m in re.finditer(r"\bCS::labeled_expand\(", src):
+        end = balanced(src, m.end() - 1, "(", ")")
+        args = split_top(src[m.end():end - 1])
+        path, body = where(m.start())
+        if len(args) < 4 or path.endswith("::labeled_expand"):
+            continue
+        info = args[3].strip()
+        lst = split_top(info[1:-1]) if info.startswith("[") else [info]
+        out.append((path, "labeled_expand", lit_or_const(args[0], body, src), lit_or_const(args[2], body, src),
+                    ["prk=" + norm_arg(args[1])] + [norm_arg(a) for a in lst]))
+    for m in re.finditer(r"\bhpke::(setup_send_deterministically|setup_send|setup_recv)(?:::<[^>]*>)?\(", src):
+        end = balanced(src, m.end() - 1, "(", ")")
+        args = split_top(src[m.end():end - 1])
+        path, body = where(m.start())
+        out.append((path, "hpke_" + m.group(1), "", "", [norm_arg(a) for a in args]))
+    # info struct literals: `Info { domain: *b"..", f, g: expr }`
+    for m in re.finditer(r"(?<!struct )\b(\w*Info)\s*\{\s*domain:", src):
+        end = balanced(src, src.index("{", m.start()), "{", "}")
+        fields = split_top(src[src.index("{", m.start()) + 1:end - 1])
+        path, body = where(m.start())
+        dom = ""
+        names = []
+        for f in fields:
+            k, _, v = f.partition(":")
+            if k.strip() == "domain":
+                dom = lit_or_const(v, body, src)
+            else:
+                names.append(k.strip() + ("=" + norm_arg(v) if v.strip() else ""))
+        out.append((path, "info_struct:" + m.group(1), dom, "", names))
+    return out, src
+
+
+def repr_c_structs(src):
+    """#[repr(C)] structs deriving IntoBytes: name -> [(field, type)]."""
+    out = []
+    for m in re.finditer(r"#\[repr\(C\)\]\s*(?:#\[[^\]]*\]\s*)*(?:pub(?:\([^)]*\))?\s+)?struct\s+(\w+)\s*\{([^}]*)\}", src):
+        head = src[m.start():m.end()]
+        if "IntoBytes" not in head:
+            continue
+        fs = re.findall(r"(?:pub(?:\([^)]*\))?\s+)?([a-z_]\w*)\s*:\s*([^,\n]+)", m.group(2))
+        out.append((m.group(1), [(a, re.sub(r"\s+", "", b)) for a, b in fs]))
+    return out
+
+
+@gen.generator
+def gen_crypto_framings(repo):
+    probs = []
+    out = [gen.HEADER, "Local Open Scope string_scope.\n"]
+    out.append("(* framing call sites: (item path, kind, domain literal, label literal, ordered argument names) *)\n")
+    allsites = []
+    structs = []
+    for rel in FRAMING_FILES:
+        try:
+            sites, src = framing_sites(repo, rel)
+        except Exception as e:
+            probs.append("%s: framing scan failed: %r" % (rel, e))
+            continue
+        structs += [(rel, n, f) for (n, f) in repr_c_structs(src)]
+        nm = re.sub(r"\W", "_", rel[:-3])
+        out.append("Definition framings_%s : list (string * string * string * string * list string) := [\n%s].\n" % (
+            nm, ";\n".join("  (%s, %s, %s, %s, [%s])" % (coq_str(p), coq_str(k), coq_str(d), coq_str(l), "; ".join(coq_str(a) for a in args))
+                           for (p, k, d, l, args) in sites)))
+        allsites += sites
+    out.append("Definition repr_c_structs : list (string * string * list (string * string)) := [\n%s].\n" % (
+        ";\n".join("  (%s, %s, [%s])" % (coq_str(rel), coq_str(n), "; ".join("(%s, %s)" % (coq_str(a), coq_str(b)) for a, b in f))
+                   for (rel, n, f) in structs)))
+    # key-id contexts of the key macros in aranya.rs: (secret key type, public key type, id type, context)
+    ar = strip_comments_only(gen.read(repo, CRYPTO_SRC + "aranya.rs"))
+    keys = re.findall(r"(signing_key|kem_key)!\s*\{\s*sk\s*=\s*(\w+),\s*pk\s*=\s*(\w+),\s*id\s*=\s*(\w+),\s*context\s*=\s*\"([^\"]*)\",?\s*\}",
+                      re.sub(r"#\[[^\]]*\]|///[^\n]*", "", ar))
+    out.append("Definition key_contexts : list (string * string * string * string * string) := [%s].\n" % (
+        "; ".join("(%s, %s, %s, %s, %s)" % tuple(coq_str(x) for x in k) for k in keys)))
+    if not keys:
+        probs.append("aranya.rs: key macros not found")
+    # call skeletons of sign_cmd / verify_cmd / Ffi::verify
+    ars = strip_code(gen.read(repo, CRYPTO_SRC + "aranya.rs"))
+    for (nm, ctx, fn) in (("calls_sign_cmd", r"impl<CS: CipherSuite> SigningKey<CS>\s*\{", "sign_cmd"),
+                          ("calls_verify_cmd", r"impl<CS: CipherSuite> VerifyingKey<CS>\s*\{", "verify_cmd")):
+        b = fn_body_in(ars, ctx, fn)
+        if b is None:
+            probs.append("aranya.rs: %s not found" % fn)
+            b = ""
+        out.append("Definition %s : list string := [%s].\n" % (nm, "; ".join(coq_str(c) for c in calls_in(b))))
+    ffi = strip_code(gen.read(repo, "crates/aranya-crypto-ffi/src/ffi.rs"))
+    m = re.search(r"pub\(crate\) fn verify<E: Engine>", ffi)
+    if m:
+        b = ffi[ffi.index("{", ffi.index("-> Result<(), Error>", m.end())):]
+        b = b[:match_brace(b, 0)]
+        out.append("Definition calls_ffi_verify : list string := [%s].\n" % "; ".join(coq_str(c) for c in calls_in(b)))
+        cond = re.search(r"if\s+(.*?)\s*\{\s*Ok\(\(\)\)", b, re.S)
+        out.append("Definition ffi_verify_accept_condition : string := %s.\n" % coq_str(" ".join(cond.group(1).split()) if cond else "?"))
+    else:
+        probs.append("ffi.rs: Ffi::verify not found")
+    # unwrap_secret's (AlgId, Ciphertext) match arms
+    de = strip_code(gen.read(repo, CRYPTO_SRC + "default.rs"))
+    arms = re.findall(r"\(AlgId::(\w+)\((?:\(\)|[^()]*)\),\s*Ciphertext::(\w+)\(", de)
+    out.append("Definition unwrap_match_arms : list (string * string) := [%s].\n" % (
+        "; ".join("(%s, %s)" % (coq_str(a), coq_str(b)) for a, b in arms)))
+    en = strip_code(gen.read(repo, CRYPTO_SRC + "engine.rs"))
+    m = re.search(r"enum AlgId\s*\{([^}]*)\}", en)
+    out.append("Definition alg_id_variants : list string := [%s].\n" % (
+        "; ".join(coq_str(v) for v in re.findall(r"([A-Z]\w*)\(", m.group(1))) if m else ""))
+    # afc-util handler: role guards and the channel each entry point builds
+    hs = strip_code(gen.read(repo, "crates/aranya-afc-util/src/handler.rs"))
+    for fn in ("uni_channel_created", "uni_channel_received"):
+        b = fn_body_in(hs, r"impl<S: KeyStore> Handler<S>\s*\{", fn)
+        if b is None:
+            probs.append("handler.rs: %s not found" % fn)
+            b = ""
+        g = re.search(r"if\s+([^{]+?)\s*\{\s*return Err\(Error::(\w+)\)", b)
+        out.append("Definition handler_%s_guard : string * string := (%s, %s).\n" % (
+            fn, coq_str(" ".join(g.group(1).split()) if g else "?"), coq_str(g.group(2) if g else "?")))
+        m = re.search(r"let ch = UniChannel\s*\{", b)
+        fields = []
+        if m:
+            e = balanced(b, b.index("{", m.start()), "{", "}")
+            fields = [re.sub(r"\s+", "", f) for f in split_top(b[b.index("{", m.start()) + 1:e - 1])]
+        out.append("Definition handler_%s_channel : list string := [%s].\n" % (fn, "; ".join(coq_str(f) for f in fields)))
+        v = re.search(r"UniKey::new\(&ch,\s*\w+,\s*UniKey::(\w+)\)", b)
+        out.append("Definition handler_%s_variant : string := %s.\n" % (fn, coq_str(v.group(1) if v else "?")))
+    us = strip_code(gen.read(repo, CRYPTO_SRC + "afc/uni.rs"))
+    out.append("Definition uni_same_id_guards : list string := [%s].\n" % "; ".join(
+        coq_str(" ".join(x.split())) for x in re.findall(r"if\s+(ch\.seal_id\s*==\s*ch\.open_id)\s*\{\s*return Err\(Error::same_device_id\(\)\)", us)))
+    return ("GenCrypto.v", "".join(out), probs)
